@@ -232,6 +232,8 @@ void ExecImpl::op_expect(const Op& op, std::function<void()>* scope_body) {
   long lo = ((op.a[5] % 5) + 5) % 5, hi = ((op.a[6] % 5) + 5) % 5;
   if (d.bf == BF_RT1) { e.L = lo; e.H = lo; }
   else if (d.bf == BF_RT2) { e.L = lo; e.H = hi; }
+  else if (d.bf == BF_RTAL) { e.L = lo; e.H = UNBOUNDED; }   // RT_TIMES(AT_LEAST(lo))
+  else if (d.bf == BF_RTAM) { e.L = 0; e.H = hi; }            // RT_TIMES(AT_MOST(hi))
   else { e.L = d.L; e.H = d.H; }
   bool inverted = d.bf == BF_RT2 && lo > hi;
   e.snap0 = e.snap = op.a[4] & 7;  // initial value of the mutable cell
@@ -294,7 +296,7 @@ void ExecImpl::op_expect(const Op& op, std::function<void()>* scope_body) {
     Inst& x = *slot.inst;
     x.id = id; for (int i = 0; i < 3; ++i) x.v[i] = e.v[i];
     x.lo = static_cast<size_t>(lo); x.hi = static_cast<size_t>(hi);
-    if (!(d.bf == BF_RT1 || d.bf == BF_RT2)) { x.lo = static_cast<size_t>(e.L < 0 ? 0 : e.L); x.hi = static_cast<size_t>(e.H < 0 ? 0 : e.H); }
+    if (!d.runtime_bounds()) { x.lo = static_cast<size_t>(e.L < 0 ? 0 : e.L); x.hi = static_cast<size_t>(e.H < 0 ? 0 : e.H); }
     x.snap = e.snap; x.str = std::to_string(1000 + id); x.pr = {1000 + id, id}; x.cell = slot.cell.get();
     for (int i = 0; i < d.nseq; ++i) x.s[i] = rseqs[chosen[static_cast<size_t>(i)]].get();
     Obs oc, od;
@@ -336,7 +338,7 @@ void ExecImpl::op_expect(const Op& op, std::function<void()>* scope_body) {
   Inst& x = *re.inst;
   x.id = e.id; for (int i = 0; i < 3; ++i) x.v[i] = e.v[i];
   x.lo = static_cast<size_t>(e.L < 0 ? 0 : e.L); x.hi = static_cast<size_t>(e.H < 0 ? 0 : e.H);
-  if (d.bf == BF_RT1 || d.bf == BF_RT2) { x.lo = static_cast<size_t>(lo); x.hi = static_cast<size_t>(hi); }
+  if (d.runtime_bounds()) { x.lo = static_cast<size_t>(lo); x.hi = static_cast<size_t>(hi); }
   x.snap = e.snap; x.str = std::to_string(1000 + x.id); x.pr = {1000 + x.id, x.id}; x.cell = re.cell.get();
   for (int i = 0; i < d.nseq; ++i) x.s[i] = rseqs[chosen[static_cast<size_t>(i)]].get();
   bool threw = false;
